@@ -164,6 +164,8 @@ def p6_inventory(F, res, R):
     from lib import report as RP
     from rules import c15
     reviewed = RP.load_reviewed().get("C10", {})
+    from lib.inventory import Inventory
+    INV = Inventory(F, reviewed, "Q1/")
     seen = F.reachable_from([ROOT])
     n = 0
     for p_ in sorted(seen):
@@ -188,9 +190,14 @@ def p6_inventory(F, res, R):
                 res.ob("P6", full, desc, True, where=f.loc(ln), how="discharged: " + why)
                 continue
             rv = RP.lookup_reviewed(reviewed, "Q1/" + full, FL.guard_signature(F, f, b, defs))
-            if rv and rv.get("guards", []) == FL.guard_signature(F, f, b, defs):
+            if rv and set(rv.get("guards", [])) <= set(FL.guard_signature(F, f, b, defs)):
                 res.ob("P6", full, desc, True, where=f.loc(ln), how="reviewed: " + rv["reason"], reviewed=True)
             else:
+                mv, mv_from = (None, None) if rv else INV.moved(f, b, key.rsplit("/", 1)[0], FL.guard_signature(F, f, b, defs))
+                if mv:
+                    res.ob("P6", full, desc, True, where=f.loc(ln), reviewed=True,
+                           how="reviewed in %s before the code was moved here: %s" % (mv_from.rsplit("::", 1)[-1], mv["reason"]))
+                    continue
                 res.ob("P6", full, desc, False, where=f.loc(ln), how="panic-capable construct reachable from parse_module, neither discharged nor reviewed"
                        if not rv else "the conditions guarding this reviewed site changed since review")
     res.floor("other panic-capable sites reachable from parse_module in crate syntax", n, 20)
